@@ -1242,25 +1242,28 @@ func (c *Ctx) ruleRejectBeforeWrite(rr *RuleRep) {
 			}
 			return false
 		}
-		if bin, ok := iff.Cond.(*ssa.BinOp); ok {
-			if base, isQ := isFieldLoad(bin.X, "Message", "QoS"); isQ && c.Resolve(base) == ssa.Value(msg) {
-				if k, ok := constInt(bin.Y); ok && ((bin.Op == token.GTR && k == 2) || (bin.Op == token.GEQ && k == 3)) && rejects(0, "ErrInvalidQoS") {
-					qosOK = true
+		// what taking edge k of this test says about the comparisons it is made of (`a && b` tested as one value: its true
+		// edge says b holds; `!x`; a plain comparison)
+		for k := 0; k < 2; k++ {
+			for _, fact := range impliedComparisons(iff.Cond, k == 0, 0) {
+				bin, holds := fact.Bin, fact.Holds
+				op := bin.Op
+				if !holds {
+					op = negateCmp(op)
 				}
-				if k, ok := constInt(bin.Y); ok && ((bin.Op == token.LEQ && k == 2) || (bin.Op == token.LSS && k == 3)) && rejects(1, "ErrInvalidQoS") {
-					qosOK = true
+				if base, isQ := isFieldLoad(bin.X, "Message", "QoS"); isQ && c.Resolve(base) == ssa.Value(msg) {
+					if kk, ok := constInt(bin.Y); ok && ((op == token.GTR && kk == 2) || (op == token.GEQ && kk == 3)) && rejects(k, "ErrInvalidQoS") {
+						qosOK = true
+					}
 				}
-			}
-			// len(message.Payload) >= c.MaxPayloadLen (or >)
-			if call, ok := bin.X.(*ssa.Call); ok {
-				if bi, ok := call.Call.Value.(*ssa.Builtin); ok && bi.Name() == "len" {
-					if base, isP := isFieldLoad(call.Call.Args[0], "Message", "Payload"); isP && c.Resolve(base) == ssa.Value(msg) {
-						if _, isM := isFieldLoad(bin.Y, "BaseClient", "MaxPayloadLen"); isM {
-							if (bin.Op == token.GEQ || bin.Op == token.GTR) && rejects(0, "ErrPayloadLenExceeded") {
-								lenOK = true
-							}
-							if (bin.Op == token.LSS || bin.Op == token.LEQ) && rejects(1, "ErrPayloadLenExceeded") {
-								lenOK = true
+				// len(message.Payload) >= c.MaxPayloadLen (or >)
+				if call, ok := bin.X.(*ssa.Call); ok {
+					if bi, ok := call.Call.Value.(*ssa.Builtin); ok && bi.Name() == "len" {
+						if base, isP := isFieldLoad(call.Call.Args[0], "Message", "Payload"); isP && c.Resolve(base) == ssa.Value(msg) {
+							if _, isM := isFieldLoad(bin.Y, "BaseClient", "MaxPayloadLen"); isM {
+								if (op == token.GEQ || op == token.GTR) && rejects(k, "ErrPayloadLenExceeded") {
+									lenOK = true
+								}
 							}
 						}
 					}
@@ -1357,6 +1360,7 @@ func (c *Ctx) ruleInboundFields(rr *RuleRep) {
 		return
 	}
 	okTopic, okPayload := false, false
+	sawN, sawBoth, other := false, false, false
 	// the decoded string handed back through a *string parameter: the destination given is the message's Topic, and
 	// unpackString stores into it before every successful return
 	for i, a := range usCall.Call.Args {
@@ -1414,7 +1418,6 @@ func (c *Ctx) ruleInboundFields(rr *RuleRep) {
 					call, ok := ex.Tuple.(*ssa.Call)
 					return ok && c.StaticCalleeOf(&call.Call) == c.Func("unpackUint16")
 				}
-				sawN, sawBoth, other := false, false, false
 				for _, alt := range altSums(sl.Low, 0) {
 					nN, nI, rest := 0, 0, 0
 					for _, t := range alt {
@@ -1436,12 +1439,15 @@ func (c *Ctx) ruleInboundFields(rr *RuleRep) {
 						other = true
 					}
 				}
-				if sawN && sawBoth && !other {
-					okPayload = true
-				}
+			} else {
+				other = true
 			}
 		}
 	})
+	// (the payload may be assigned once below a join of the two offsets, or once per branch)
+	if sawN && sawBoth && !other {
+		okPayload = true
+	}
 	if okTopic {
 		rr.OK("pktPublish.Parse/topic", usCall.Pos(), "Topic = string decoded by unpackString(contents)")
 	} else {
@@ -1942,4 +1948,62 @@ func parseParams(p *ssa.Function) (flag, contents *ssa.Parameter) {
 		contents = nil
 	}
 	return
+}
+
+type cmpFact struct {
+	Bin   *ssa.BinOp
+	Holds bool
+}
+
+// impliedComparisons: the comparisons whose truth follows from cond having the value `truth`: the comparison itself, the
+// operand of a negation, and for a short-circuit value (a phi of constants and one computed operand) the computed operand
+// when the constants are the other value (`a && b` true: b holds; `a || b` false: b does not).
+func impliedComparisons(cond ssa.Value, truth bool, depth int) []cmpFact {
+	if depth > 4 {
+		return nil
+	}
+	switch x := cond.(type) {
+	case *ssa.BinOp:
+		switch x.Op {
+		case token.EQL, token.NEQ, token.LSS, token.LEQ, token.GTR, token.GEQ:
+			return []cmpFact{{x, truth}}
+		}
+	case *ssa.UnOp:
+		if x.Op == token.NOT {
+			return impliedComparisons(x.X, !truth, depth+1)
+		}
+	case *ssa.Phi:
+		var rest []ssa.Value
+		for _, e := range x.Edges {
+			if k, isK := constBool(e); isK {
+				if k == truth {
+					return nil // the constant edges can produce this value on their own
+				}
+				continue
+			}
+			rest = append(rest, e)
+		}
+		if len(rest) == 1 {
+			return impliedComparisons(rest[0], truth, depth+1)
+		}
+	}
+	return nil
+}
+
+func negateCmp(op token.Token) token.Token {
+	switch op {
+	case token.EQL:
+		return token.NEQ
+	case token.NEQ:
+		return token.EQL
+	case token.LSS:
+		return token.GEQ
+	case token.LEQ:
+		return token.GTR
+	case token.GTR:
+		return token.LEQ
+	case token.GEQ:
+		return token.LSS
+	}
+	return op
 }
